@@ -34,8 +34,13 @@ CONSTANTS Caps,        \* channel capacities to explore
           Loops,       \* BOOLEAN: emit the looping methods (Consume / Iterator)
           Dists        \* BOOLEAN: emit the filtered distributor operations over the channel
 
-VARIABLES s, hist
-vars == <<s, hist>>
+\* S: the settled configurations consistent with everything observed so far.  The observation (results, blocked
+\* calls, Len) does not always determine the configuration - after a burst of two sends the order of the two items
+\* in the buffer is unknown - so the spec tracks the whole set; `allowed` is what any member allows, and the
+\* behaviour continues with the members that agree with `br`.  All members have the same calls in flight.
+VARIABLES S, hist
+vars == <<S, hist>>
+s == CHOOSE x \in S : TRUE
 
 Id == "o" \o ToString(Len(hist) + 1)
 Id2 == "p" \o ToString(Len(hist) + 1)       \* second action of a burst
@@ -90,22 +95,26 @@ BurstActs(id) ==
 
 Rec(acts, alw, br) == [acts |-> acts, allowed |-> alw, br |-> br, cap |-> 0, nil |-> FALSE]
 
+Fresh == {[x EXCEPT !.out = <<>>] : x \in S}
+
 Single == \E a \in Acts(Id) :
-            LET fin == Final({ApplyAct([s EXCEPT !.out = <<>>], a)}) IN
-            \E f \in fin : /\ s' = f
-                           /\ hist' = Append(hist, Rec(<<a>>, {Obs(x) : x \in fin}, Obs(f)))
+            LET fin == Final({ApplyAct(x, a) : x \in Fresh}) IN
+            \E o \in {Obs(x) : x \in fin} :
+               /\ S' = {x \in fin : Obs(x) = o}
+               /\ hist' = Append(hist, Rec(<<a>>, {Obs(x) : x \in fin}, o))
 
 Burst == /\ Bursts
          /\ \E a \in BurstActs(Id) :
             \E b \in BurstActs(Id2) \cup (IF a.op = "start" THEN {Act("cancel", Id2, "", "", FALSE, FALSE, a.id)} ELSE {}) :
               /\ ~(a.op = "cancel" /\ b.op = "cancel" /\ a.target = b.target)
-              /\ LET mid == Reach({ApplyAct([s EXCEPT !.out = <<>>], a)})
+              /\ LET mid == Reach({ApplyAct(x, a) : x \in Fresh})
                      fin == Final({ApplyAct(x, b) : x \in mid})
-                 IN \E f \in fin : /\ s' = f
-                                   /\ hist' = Append(hist, Rec(<<a, b>>, {Obs(x) : x \in fin}, Obs(f)))
+                 IN \E o \in {Obs(x) : x \in fin} :
+                      /\ S' = {x \in fin : Obs(x) = o}
+                      /\ hist' = Append(hist, Rec(<<a, b>>, {Obs(x) : x \in fin}, o))
 
 Init == \E cap \in Caps, n \in Nils :
-          /\ s = NewSys(cap, n)
+          /\ S = {NewSys(cap, n)}
           /\ hist = <<[acts |-> <<>>, allowed |-> {}, br |-> [res |-> <<>>, len |-> 0], cap |-> cap, nil |-> n]>>
 
 Next == Len(hist) < Depth + 1 /\ (Single \/ Burst)
@@ -113,10 +122,12 @@ Spec == Init /\ [][Next]_vars
 
 \* operation identities, item names and the results of finished calls do not influence what can happen next
 Shape(o) == <<o.k, IF o.meth \in LoopMeths THEN o.meth ELSE IF o.meth = "ok" THEN "ok" ELSE "", Len(o.left)>>
-view == <<Len(s.c.buf), s.c.closed, s.c.cap, s.c.nil, s.itclosed, s.itcanc,
-          {<<sh, Cardinality({i \in Ops(s) : Shape(s.ops[i]) = sh})>> : sh \in {Shape(s.ops[i]) : i \in Ops(s)}}>>
+View1(x) == <<Len(x.c.buf), x.c.closed, x.c.cap, x.c.nil, x.itclosed, x.itcanc,
+             {<<sh, Cardinality({i \in Ops(x) : Shape(x.ops[i]) = sh})>> : sh \in {Shape(x.ops[i]) : i \in Ops(x)}}>>
+view == {View1(x) : x \in S}
 
-Inv == SysOK(s) /\ Settled(s)
+Inv == /\ S # {}
+       /\ \A x \in S : SysOK(x) /\ Settled(x) /\ Obs(x) = Obs(s)
 
 EmitAll == Len(hist) < Depth + 1 \/ PrintT(<<"BEH", ToJson(hist)>>)
 EmitEdge == PrintT(<<"BEH", ToJson(hist')>>)
